@@ -316,8 +316,20 @@ func (p *Pool) Put(x interface{}) {
 // ------------------------------------------------------------------ Map (insertion ordered)
 
 type Map struct {
-	keys []interface{}
-	m    map[interface{}]interface{}
+	keys  []interface{}
+	m     map[interface{}]interface{}
+	epoch uint64
+}
+
+// sync empties a process-global Map at the start of every simulated run, so that a run
+// behaves like a fresh process whatever ran before it in the same worker (a replay
+// executes one run, a batch worker many).
+func (m *Map) sync() {
+	if e := simrt.Epoch(); m.epoch != e {
+		m.m = nil
+		m.keys = nil
+		m.epoch = e
+	}
 }
 
 func (m *Map) init() {
@@ -327,12 +339,14 @@ func (m *Map) init() {
 }
 
 func (m *Map) Load(key interface{}) (interface{}, bool) {
+	m.sync()
 	simrt.Yield()
 	v, ok := m.m[key]
 	return v, ok
 }
 
 func (m *Map) Store(key, value interface{}) {
+	m.sync()
 	simrt.Yield()
 	m.init()
 	if _, ok := m.m[key]; !ok {
@@ -342,6 +356,7 @@ func (m *Map) Store(key, value interface{}) {
 }
 
 func (m *Map) LoadOrStore(key, value interface{}) (interface{}, bool) {
+	m.sync()
 	simrt.Yield()
 	m.init()
 	if v, ok := m.m[key]; ok {
@@ -353,6 +368,7 @@ func (m *Map) LoadOrStore(key, value interface{}) (interface{}, bool) {
 }
 
 func (m *Map) LoadAndDelete(key interface{}) (interface{}, bool) {
+	m.sync()
 	simrt.Yield()
 	v, ok := m.m[key]
 	if ok {
@@ -372,6 +388,7 @@ func (m *Map) del(key interface{}) {
 }
 
 func (m *Map) Delete(key interface{}) {
+	m.sync()
 	simrt.Yield()
 	if _, ok := m.m[key]; ok {
 		m.del(key)
@@ -379,6 +396,7 @@ func (m *Map) Delete(key interface{}) {
 }
 
 func (m *Map) Swap(key, value interface{}) (interface{}, bool) {
+	m.sync()
 	simrt.Yield()
 	m.init()
 	old, ok := m.m[key]
@@ -390,6 +408,7 @@ func (m *Map) Swap(key, value interface{}) (interface{}, bool) {
 }
 
 func (m *Map) CompareAndSwap(key, old, new interface{}) bool {
+	m.sync()
 	simrt.Yield()
 	if v, ok := m.m[key]; ok && v == old {
 		m.m[key] = new
@@ -399,6 +418,7 @@ func (m *Map) CompareAndSwap(key, old, new interface{}) bool {
 }
 
 func (m *Map) CompareAndDelete(key, old interface{}) bool {
+	m.sync()
 	simrt.Yield()
 	if v, ok := m.m[key]; ok && v == old {
 		m.del(key)
@@ -408,6 +428,7 @@ func (m *Map) CompareAndDelete(key, old interface{}) bool {
 }
 
 func (m *Map) Range(f func(key, value interface{}) bool) {
+	m.sync()
 	simrt.Yield()
 	keys := append([]interface{}(nil), m.keys...)
 	for _, k := range keys {
@@ -422,6 +443,7 @@ func (m *Map) Range(f func(key, value interface{}) bool) {
 }
 
 func (m *Map) Clear() {
+	m.sync()
 	simrt.Yield()
 	m.m = nil
 	m.keys = nil
